@@ -58,6 +58,9 @@ type Scenario struct {
 	Policy string
 	// Choose, when set, overrides Policy: it picks the waiter to release.
 	Choose func(ws []mon.Waiter, g *rng.Rand) mon.Waiter
+	// ChooseR, when set, overrides Choose and Policy; it also sees the runner (to name
+	// writers by their batch) and whether the point is strictly quiescent.
+	ChooseR func(r *Runner, st mon.Status, strict bool) mon.Waiter
 	// Handlers are extra hook handlers (assertions, recorders) installed before the gate handler.
 	Handlers []mon.Handler
 	// AfterOpen is called once the controlled part is over and the gates are
@@ -193,7 +196,9 @@ func Run(sc *Scenario, obs Observer, final func(r *Runner)) (*Result, error) {
 		}
 		idleRounds = 0
 		var pick mon.Waiter
-		if sc.Choose != nil {
+		if sc.ChooseR != nil {
+			pick = sc.ChooseR(r, st, strict)
+		} else if sc.Choose != nil {
 			pick = sc.Choose(st.Waiters, sc.G)
 		} else {
 			pick = choose(sc.Policy, st.Waiters, sc.G)
@@ -255,6 +260,14 @@ func Run(sc *Scenario, obs Observer, final func(r *Runner)) (*Result, error) {
 	res.Steps, res.Heuristic = r.Steps, r.Heuristic
 	res.Schedule, res.IntroOrder, res.Errors = gate.Schedule(), gate.IntroOrder(), r.Errors
 	return res, nil
+}
+
+// RefOf returns the batch the given writer actor is currently submitting.
+func (r *Runner) RefOf(actor string) (BatchRef, bool) {
+	r.mu.Lock()
+	defer r.mu.Unlock()
+	ref, ok := r.current[actor]
+	return ref, ok
 }
 
 // AckedSet returns a copy of the acknowledged batches.
